@@ -102,11 +102,16 @@ class Gen:
             return f"{f}({self.expr(depth, 0.0)})"
         v = self.fresh_local(declare=False)
         t = r.choice(INT_TYPES)
-        return f"({{ {t} {v} = {self.expr(depth, 0.0)}; {v}; }})"
+        e = self.expr(depth, 0.0)
+        # the scope of a local declared inside a statement-expression ends with it: later expressions must not mention it (that would
+        # not be C), and no later declaration re-uses the name (re-declaration is the listed finding D29)
+        self.locals.pop(v, None)
+        self.reserved = getattr(self, "reserved", set()) | {v}
+        return f"({{ {t} {v} = {e}; {v}; }})"
 
     def fresh_local(self, declare=True, ty=None):
         for n in "abcdefghlmnopq":
-            if n not in self.locals:
+            if n not in self.locals and n not in getattr(self, "reserved", set()):
                 if declare:
                     self.locals[n] = ty or self.r.choice(INT_TYPES)
                 else:
@@ -175,6 +180,7 @@ class Gen:
 
     def program(self, nstmts=None, depth=2, hybrids=0.0):
         self.locals = {}
+        self.reserved = set()
         self.pair_mode = self.r.random() < 0.3   # an instruction never names Rd and Rdd (same operand letter) together
         n = nstmts or self.r.randint(1, 5)
         return "{ " + " ".join(self.stmt(depth, hybrids) for _ in range(n)) + " }"
